@@ -66,3 +66,21 @@ _reg_alpide2 = register
 def register(X, EXTRA):
     _reg_alpide2(X, EXTRA)
     EXTRA.append(lambda F: g_no_panic_fixes(F, X))
+
+
+def g_fatal_lane_arm(F, X):
+    src = X.strip_comments(X.read(X.FP + "/analyze/validators/its/alpide/alpide_readout_frame.rs"))
+    body = X.fn_body(src, "validate_inner_lane_groupings")
+    v = None
+    if body is not None:
+        v = not re.search(r"unreachable!|panic!|unimplemented!|todo!|\.expect\s*\(|\[\s*\*?\s*fl\b", body) and bool(re.search(r"_\s*=>\s*(\(\s*\)|\{\s*\})", body))
+    F.add("fatal_lane_beyond_barrel_is_ignored", "bool", v, True,
+          "alpide_readout_frame.rs validate_inner_lane_groupings: a fatal lane number above 8 takes nothing out of the groupings (no unreachable!/panic! arm)")
+
+
+_reg_alpide3 = register
+
+
+def register(X, EXTRA):
+    _reg_alpide3(X, EXTRA)
+    EXTRA.append(lambda F: g_fatal_lane_arm(F, X))
